@@ -77,7 +77,23 @@ SCOPE = (
     "(relative) of the threshold are not judged, for threshold_std within 1e-5 (float32 std).  "
     "Every RQA method is called on each RecurrencePlot-derived object and compared with the "
     "direct count on its recurrence_matrix() (see C08); for CrossRecurrencePlot the documented "
-    "NotImplementedError of the line distributions is required."
+    "NotImplementedError of the line distributions is required.  "
+    "normalize=True (checks '<Class>@normalize/...' and '<Class>/normalize/...'): all six classes; "
+    "scalar series of length 1..4 (thorough 5) over {0,3,4} x embeddings none/(2,1)/(3,1)/(2,2) x "
+    "metrics, 2-d series of length 1..2 (3), cross plots for pairs of length 1..3, joint plots / "
+    "networks for all pairs of length 1..3 with every lag and the flags True, (True,True) and - "
+    "length <= 2 - (False,False), (True,False), (False,True), inter-system networks on seeded pairs, "
+    "plus seeded float32 series of length 6..40 (1..3 components, offsets and scales != 0,1); the "
+    "stored series must be (x-mean)/std per component within 1e-5 (population or sample std; "
+    "constant components only stay constant), thresholding is then judged exactly on the stored "
+    "states; RecurrencePlot.normalize_time_series also directly on float64 (1e-9) / float32 (1e-5) "
+    "arrays.  User-assigned embeddings (checks '<Class>@assigned-embedding/...'): RecurrencePlot / "
+    "RecurrenceNetwork objects built from a 4-point series, cached distance matrices and RQA "
+    "evaluated, then obj.embedding = Y and every set_* variant: Y = all arrays over {0,3,4} with "
+    "1..5 rows x 1 column and 1..3 rows x 2 columns (quick: a quarter of the >= 5-entry ones), and "
+    "Y = RecurrencePlot.legendre_coordinates(x, dim 1..4, p / tau_w given / estimated, regular and "
+    "irregular t) of seeded series of length 8..40 (the values of legendre_coordinates are not "
+    "judged)."
 )
 RULE = (
     "one evaluation = one contract clause group on one constructed object (sizes, embedding, "
